@@ -33,6 +33,9 @@ const FAULT: &str = "verif-stream-fault";
 pub struct Req {
     a: Num,
     s: String,
+    /// an optional binary (Base64 text in JSON); never present in well-formed documents of this harness
+    #[serde(default, skip_serializing_if = "Option::is_none")]
+    b: Option<serde_bytes::ByteBuf>,
 }
 
 /// A number whose text form ("7") is valid in human-readable encodings only - the way conjure's uuid (text in JSON, 16
@@ -161,7 +164,7 @@ fn make_body(enc: &str, cls: &str, target: Option<usize>, rng: &mut Rng) -> Resu
     };
     for n in lens {
         let s: String = (0..n).map(|i| (b'a' + ((i as u64 + rng.0 % 26) % 26) as u8) as char).collect();
-        let req = Req { a: Num(7), s: s.clone() };
+        let req = Req { a: Num(7), s: s.clone(), b: None };
         let doc = encode(enc, &req);
         let mut body = match cls {
             "doc" => doc.clone(),
@@ -202,6 +205,11 @@ fn make_body(enc: &str, cls: &str, target: Option<usize>, rng: &mut Rng) -> Resu
                 }
             }
             "unknown" => encode(enc, &ReqExtra { a: 7, s: s.clone(), zz: 1 }),
+            // JSON, free length: a binary field holding text that is not Base64 - long, with multi-byte characters around byte 64
+            "wrongtype" if enc == "json" && target.is_none() && rng.0 % 3 == 0 => {
+                let junk = [format!("{}\u{e9}AAAA", "A".repeat(63)), "\u{e9}".repeat(70), format!("{}\u{2603}!", "AQID".repeat(16))][(rng.0 / 3 % 3) as usize].clone();
+                format!("{{\"a\":7,\"s\":\"{s}\",\"b\":\"{junk}\"}}").into_bytes()
+            }
             // Smile: alternately the text form of the number, which only human-readable encodings admit
             "wrongtype" => encode(enc, &ReqWrong { a: if enc == "smile" && rng.0 % 2 == 0 { "7" } else { "q" }.into(), s: s.clone() }),
             "otherenc" => encode(if enc == "smile" { "json" } else { "smile" }, &req),
